@@ -31,18 +31,31 @@ THEOREMS = [
     "BSVerif.Props.C17.maxSize_semantics",
     "BSVerif.Props.C17.check_iff_fails",
     "BSVerif.Props.C17.required_default_message",
+    "BSVerif.Props.C17.enum_loaded_iff_registered_name",
+    "BSVerif.Props.C17.enum_field_loaded_iff",
+    "BSVerif.Props.C17.enum_not_loaded_untouched",
+    "BSVerif.Props.C17.enum_lookup_eq_spec",
+    "BSVerif.Props.C17.enum_table_matches_code",
+    "BSVerif.Props.C17.throwError_without_mismatch",
+    "BSVerif.Props.C17.throwError_mismatch",
+    "BSVerif.Props.C17.throwError_mismatch_uncapped",
+    "BSVerif.Props.C17.throwError_never_ok_on_mismatch",
 ] + TEXT_THEOREMS
-RULE = ("fixed C++ classes (flat: int64/string/optional/vector fields; nested; class inside vector; class inside map) whose KeyValues "
-        "carry 4 runtime-configured validator slots each (the REAL Required/Range/MinSize/MaxSize/Email/PhoneNumber functors and custom "
-        "lambdas, default and custom messages, any subset and order) x documents in which each field is present-valid, at / just inside / "
-        "just outside each bound, absent, nil or of another kind (skipped) x maxValidationErrors in {0,1,2,3,4,6} x shuffled field order in the "
-        "document; loaded from MsgPack built by an independent encoder. PLUS the real PhoneNumber / Email functors called directly "
+RULE = ("fixed C++ classes (flat: int64/string/optional/vector/REGISTERED-ENUM fields; nested; class inside vector; class inside map) whose "
+        "KeyValues carry 4 runtime-configured validator slots each (the REAL Required/Range/MinSize/MaxSize/Email/PhoneNumber functors and custom "
+        "lambdas incl. isLoaded-aware and value-only ones, default and custom messages, any subset and order) x documents in which each field is "
+        "present-valid, at / just inside / just outside each bound, absent, nil or of another kind (skipped) x maxValidationErrors in "
+        "{0,1,2,3,4,6} x shuffled field order in the document; the enum field holds every registered name, the names in other letter case, "
+        "unknown names (empty, prefixes, one char longer, trailing/leading space, one char changed, a byte >= 0x80, an embedded NUL, digits), "
+        "numbers, nil, arrays, maps or is absent; every op shape also under MismatchedTypesPolicy::ThrowError (val.loadt: a mismatched value in "
+        "every position among fields whose validators fail, caps at / around the number of fields failing before it); "
+        "loaded from MsgPack built by an independent encoder. PLUS the real PhoneNumber / Email functors called directly "
         "(val.phone* / val.email*) on std::string, const char*, u16string, u32string, wstring: numbers of the documented shape with "
         "min-2..max+2 digits for 13 (min,max,plus) configurations incl. min = max and min > max; every single-unit deletion / replacement / "
         "insertion (35 boundary units: neighbours of every character class, NUL, >= 0x80; wide units whose low byte is an allowed character) of "
         "valid numbers and addresses; every unit value 0..255 in every kind of position; every part of an address at / below / over its "
         "limit (local 64, label 63, domain 255, total 254); dots, '@', hyphens, quoted / commented / literal forms; random strings over "
-        "the two alphabets; not-loaded values. non-trivial = a ValidationException was thrown (val.load) / the functor answered for a "
+        "the two alphabets; not-loaded values. non-trivial = a ValidationException was thrown (val.load) / a ValidationException or MismatchedTypes was thrown (val.loadt) / the functor answered for a "
         "loaded value (val.phone*, val.email*); distinct = distinct op lines")
 EXHAUSTIVE = {"quick": False, "thorough": False}
 ASSUMPTIONS = ["inside a LOAD (val.load) Email / PhoneNumber still carry the expected classification in the op (fixed lists); their "
@@ -53,8 +66,14 @@ ASSUMPTIONS = ["inside a LOAD (val.load) Email / PhoneNumber still carry the exp
                "digit, an address longer than 254 units) the oracle answers nospec and only the correspondence with the model applies",
                "keys of one object are distinct (then the error paths are distinct); array positions in paths are the code's 1-based positions",
                "the MsgPack archive; the three text archives build paths the same way but are not run here",
-               "integer<->boolean funnelling (C04) is not generated"]
-TRUSTED = ["runtime-configured validator slots in harness/ops_valid.cpp dispatch to the real functors of validators.h",
+               "integer<->boolean funnelling (C04) is not generated",
+               "enum: the registered names are ASCII; a document byte >= 0x80 reaches std::tolower as a negative int (outside the C "
+               "standard's domain of tolower; glibc defines it) and never equals a registered character; the process runs in the \"C\" locale",
+               "ThrowError (val.loadt): a load that meets no mismatched value runs the code of the Skip load (the policy is consulted only at a "
+               "mismatch) - the model says so by definition, the correspondence run checks it; bin / ext / timestamp / bool tokens and keys "
+               "that are not strings are not generated"]
+TRUSTED = ["harness/valid_enum.h is the one registration of the enum, shared by harness/ops_valid.cpp and harness/dump/dump_validenum.cpp",
+           "runtime-configured validator slots in harness/ops_valid.cpp dispatch to the real functors of validators.h",
            "harness/ops_valid.cpp recognises the PhoneNumber message class from the default message text",
            "harness/dump/dump_textvalid.cpp reads the function-local tables/limits of Email off the compiled functor by probing"]
 
@@ -80,10 +99,44 @@ OPT_VALIDATORS = ["R", "R!", "Ca", "Cu"]
 OPT_VALUES = ["i7", "i0", None, "n", "s78"]
 VEC_VALIDATORS = ["R", "N1", "X3", "N!2", "X!2", "Ce", "Cu"]
 VEC_VALUES = ["a0", "a1,i1", "a2,i1,i2", "a3,i1,i2,i3", "a4,i1,i2,i3,i4", "a2,i1,s78", None, "n", "i5", "m0"]
-FIELD = {"i": (INT_VALIDATORS, INT_VALUES), "s": (STR_VALIDATORS, STR_VALUES), "o": (OPT_VALIDATORS, OPT_VALUES), "v": (VEC_VALIDATORS, VEC_VALUES)}
+# the registered enum (harness/valid_enum.h): names Low Mid High = values 0 1 2, initial value Mid.
+# Validators that compile for an enum: Required, Range<ValTone> (custom message), custom lambdas.
+ENUM_VALIDATORS = ["R", "R!", "G!0:1", "G!1:2", "G!2:2", "G!0:0", "Ce", "Ca", "Cu", "Cv"]
+
+
+def sb(b):
+    """string token from raw bytes"""
+    if isinstance(b, str):
+        b = b.encode("latin-1")
+    return "s" + ("".join("%02x" % x for x in b) if b else "-")
+
+
+ENUM_NAMES = ["Low", "Mid", "High"]
+ENUM_OTHER_CASE = ["low", "LOW", "lOw", "mid", "MID", "miD", "high", "HIGH", "hIgH", "HIGh"]
+ENUM_UNKNOWN = ["", "L", "Lo", "Lowx", "low ", " Low", "Low ", "Lov", "Kow", "Lpw", "Mie", "Lid", "Miw", "Hig", "Highh", "Higi", "Gigh", "H\x69gh\x00", "Low\x00",
+                "Lo\x00", "L\xf6w", "L\xefw", "\xccow", "L\x4fW\xff", "l\x8fw", "0", "1", "2", "Mid,High", "LowMid", "None", "@id", "`id", "Mi\x44\x00", "[id", "Mi$"]
+ENUM_VALUES = ([sb(n) for n in ENUM_NAMES] + [sb(n) for n in ENUM_OTHER_CASE] + [sb(n) for n in ENUM_UNKNOWN] +
+               ["i0", "i1", "i2", "i-1", "i77", "d3ff0000000000000", None, "n", "a0", "a1,s4c6f77", "a2,s4d6964,s4d6964", "m0", "m1,s6c6f77,i1"])
+FIELD = {"i": (INT_VALIDATORS, INT_VALUES), "s": (STR_VALIDATORS, STR_VALUES), "o": (OPT_VALIDATORS, OPT_VALUES), "v": (VEC_VALIDATORS, VEC_VALUES),
+         "e": (ENUM_VALIDATORS, ENUM_VALUES)}
+FLAT = "isove"
+# values that are loaded or are no mismatch under ThrowError (present-valid, absent, nil)
+CLEAN = {"i": ["i5", "i1", "i10", "i0", "i11", "i-6", "i3", None, "n"],
+         "s": ["s-", "s61", "s6162", "s616263646566", None, "n"],
+         "o": ["i7", "i0", None, "n"],
+         "v": ["a0", "a1,i1", "a2,i1,i2", "a4,i1,i2,i3,i4", "a2,i1,n", None, "n"],
+         "e": [sb("Low"), sb("Mid"), sb("High"), sb("low"), sb("MID"), sb("hIgH"), None, "n"]}
+# mismatched under ThrowError
+DIRTY = {"i": ["s78", "a1,i1", "d3ff0000000000000", "m0"],
+         "s": ["i5", "a0", "m0"],
+         "o": ["s78", "a0", "d3ff0000000000000"],
+         "v": ["i5", "m0", "s78", "a2,i1,s78", "a2,a0,i1", "a1,m0"],
+         "e": [sb("Lo"), sb(""), sb("Lowx"), sb("low "), sb("Mie"), sb("L\xf6w"), "i1", "a1,s4c6f77", "m0", "d3ff0000000000000"]}
 
 
 def nontrivial(op, impl):
+    if op.startswith("val.loadt"):
+        return impl.startswith("validation") or impl == "err mismatched"
     if op.startswith("val.load"):
         return impl.startswith("validation")
     return impl == "pass" or impl.startswith("fail:")
@@ -413,7 +466,7 @@ def rand_cfg(rng, fields, p_empty=0.25):
     return cfg
 
 
-def rand_flat_entries(rng, fields="isov", p_absent=0.2):
+def rand_flat_entries(rng, fields=FLAT, p_absent=0.2):
     e = []
     for f in fields:
         v = rng.choice(FIELD[f][1])
@@ -426,8 +479,110 @@ def rand_flat_entries(rng, fields="isov", p_absent=0.2):
     return e
 
 
-def op(cls, cap, cfg, doc):
-    return "val.load %s %d %s %s" % (cls, cap, cfg_str(cfg), doc)
+def op(cls, cap, cfg, doc, policy=""):
+    return "val.load%s %s %d %s %s" % (policy, cls, cap, cfg_str(cfg), doc)
+
+
+def clean_flat_entries(rng, dirty=0.0, fields=FLAT):
+    """entries whose values are no mismatch under ThrowError, each replaced by a mismatched one with probability `dirty`"""
+    e = []
+    for f in fields:
+        v = rng.choice(DIRTY[f]) if rng.random() < dirty else rng.choice(CLEAN[f])
+        if v is None:
+            continue
+        e.append((f, v))
+    rng.shuffle(e)
+    if rng.random() < 0.2:
+        e.insert(rng.randrange(0, len(e) + 1), ("zz", "i1"))
+    return e
+
+
+FAILING = {"i": ["R", "Ca", "G3:3", "Cu", "Ce", "G1:10"], "s": ["R", "Ca", "N2", "X0", "Cu", "Ce"], "o": ["R", "R!", "Ca", "Cu"],
+           "v": ["R", "N1", "X!2", "Cu", "Ce"], "e": ["R", "R!", "Ca", "Cu", "Cv", "Ce", "G!0:0", "G!2:2"]}
+
+
+def gen_throw(tier, rng, boost, caps):
+    """MismatchedTypesPolicy::ThrowError"""
+    thorough = tier != "quick"
+    ops = []
+    # one field under the microscope: every value of its list (loadable, nil, absent, every kind of mismatch); the others are clean and
+    # their validators mostly fail, so that the cap is reached before / at / after the field
+    for f, (validators, values) in FIELD.items():
+        for val in values:
+            for _ in range(3 if not thorough else 12):
+                cfg = {x: rng.sample(FAILING[x], rng.choice([1, 2, 3])) for x in FLAT if rng.random() < 0.75}
+                cfg[f] = rng.sample(validators, rng.choice([1, 2, 3]))
+                entries = [e for e in clean_flat_entries(rng) if e[0] != f]
+                if val is not None:
+                    entries.insert(rng.randrange(0, len(entries) + 1), (f, val))
+                for cap in rng.sample(caps, 2) if not thorough else caps:
+                    ops.append(op("flat", cap, cfg, obj(entries), "t"))
+    # every cap around the number of fields that fail before the mismatched one
+    for f in FLAT:
+        for bad in DIRTY[f]:
+            for cap in range(0, 7):
+                cfg = {x: rng.sample(FAILING[x], rng.choice([1, 2])) for x in FLAT}
+                entries = [e for e in clean_flat_entries(rng) if e[0] != f] + [(f, bad)]
+                rng.shuffle(entries)
+                ops.append(op("flat", cap, cfg, obj(entries), "t"))
+    # all fields at once, a few of them mismatched
+    for _ in range((800 if not thorough else 40000) * boost):
+        cfg = rand_cfg(rng, FLAT)
+        ops.append(op("flat", rng.choice(caps), cfg, obj(clean_flat_entries(rng, dirty=rng.choice([0.0, 0.1, 0.3]))), "t"))
+    for d in ("n", "i5", "a0", "m0", "s61", "d3ff0000000000000"):
+        for cap in (0, 1):
+            ops.append(op("flat", cap, {"i": ["R"], "e": ["R", "Cv"]}, d, "t"))
+    # nested / class inside vector / class inside map
+    n = (350 if not thorough else 15000) * boost
+    for _ in range(n):
+        cfg = rand_cfg(rng, FLAT, p_empty=0.4)
+        dirty = rng.choice([0.0, 0.0, 0.1, 0.25])
+        if rng.random() < 0.7:
+            cfg["n"] = rng.sample(["R", "R!", "Ca", "Cu"], rng.choice([1, 2]))
+        if rng.random() < 0.7:
+            cfg["k"] = rng.sample(INT_VALIDATORS, rng.choice([1, 2, 3]))
+        entries = []
+        r = rng.random()
+        if r < 0.75:
+            entries.append(("n", obj(clean_flat_entries(rng, dirty))))
+        elif r < 0.9:
+            entries.append(("n", rng.choice(["n", "n", "i5", "a0", "s78"])))
+        kv = rng.choice(CLEAN["i"] + (DIRTY["i"] if rng.random() < 0.3 else []))
+        if kv is not None:
+            entries.append(("k", kv))
+        rng.shuffle(entries)
+        ops.append(op("nested", rng.choice(caps), cfg, obj(entries), "t"))
+    for _ in range(n):
+        cfg = rand_cfg(rng, FLAT, p_empty=0.4)
+        dirty = rng.choice([0.0, 0.0, 0.1, 0.25])
+        if rng.random() < 0.7:
+            cfg["items"] = rng.sample(["R", "N1", "N2", "X1", "X2", "N!3", "Ce", "Cu"], rng.choice([1, 2, 3]))
+        r = rng.random()
+        if r < 0.8:
+            k = rng.choice([0, 1, 2, 3, 4])
+            items = [obj(clean_flat_entries(rng, dirty)) if rng.random() < 0.85 else rng.choice(["n", "n", "i5", "a0"]) for _ in range(k)]
+            entries = [("items", ",".join(["a%d" % k] + items))]
+        elif r < 0.9:
+            entries = [("items", rng.choice(["n", "i5", "m0"]))]
+        else:
+            entries = []
+        ops.append(op("vec", rng.choice(caps), cfg, obj(entries), "t"))
+    for _ in range(n):
+        cfg = rand_cfg(rng, FLAT, p_empty=0.4)
+        dirty = rng.choice([0.0, 0.0, 0.1, 0.25])
+        if rng.random() < 0.7:
+            cfg["m"] = rng.sample(["R", "N1", "N2", "X1", "X2", "X!0", "Ce", "Cu"], rng.choice([1, 2, 3]))
+        r = rng.random()
+        if r < 0.8:
+            keys = rng.sample(["a", "b", "c", "d", "zz", "key"], rng.choice([0, 1, 2, 3]))
+            items = [(k, obj(clean_flat_entries(rng, dirty)) if rng.random() < 0.85 else rng.choice(["n", "n", "i5", "a0"])) for k in keys]
+            entries = [("m", obj(items))]
+        elif r < 0.9:
+            entries = [("m", rng.choice(["n", "i5", "a0"]))]
+        else:
+            entries = []
+        ops.append(op("map", rng.choice(caps), cfg, obj(entries), "t"))
+    return ops
 
 
 def gen(tier, rng, boost=1):
@@ -439,7 +594,7 @@ def gen(tier, rng, boost=1):
         for vl in lists_for(validators, rng, thorough):
             for val in values:
                 for cap in (caps if len(vl) > 1 else [0, 1]):
-                    others = rand_cfg(rng, [x for x in "isov" if x != f], p_empty=0.5)
+                    others = rand_cfg(rng, [x for x in FLAT if x != f], p_empty=0.5)
                     cfg = dict(others)
                     cfg[f] = vl
                     entries = [e for e in rand_flat_entries(rng) if e[0] != f]
@@ -460,7 +615,7 @@ def gen(tier, rng, boost=1):
         ops.append(op("flat", cap, {"s": ["E+", "P+", "R"]}, obj([("s", "n")])))
     # all fields at once
     for _ in range((1200 if not thorough else 60000) * boost):
-        cfg = rand_cfg(rng, "isov")
+        cfg = rand_cfg(rng, FLAT)
         ops.append(op("flat", rng.choice(caps), cfg, obj(rand_flat_entries(rng))))
     # root value that is not an object, empty object
     for d in ("n", "i5", "a0", "m0"):
@@ -468,7 +623,7 @@ def gen(tier, rng, boost=1):
             ops.append(op("flat", cap, {"i": ["R"], "s": ["R", "N1"]}, d))
     # nested
     for _ in range((500 if not thorough else 20000) * boost):
-        cfg = rand_cfg(rng, "isov", p_empty=0.4)
+        cfg = rand_cfg(rng, FLAT, p_empty=0.4)
         if rng.random() < 0.7:
             cfg["n"] = rng.sample(["R", "R!", "Ca", "Cu"], rng.choice([1, 2]))
         if rng.random() < 0.7:
@@ -486,7 +641,7 @@ def gen(tier, rng, boost=1):
         ops.append(op("nested", rng.choice(caps), cfg, obj(entries)))
     # class inside vector
     for _ in range((500 if not thorough else 20000) * boost):
-        cfg = rand_cfg(rng, "isov", p_empty=0.4)
+        cfg = rand_cfg(rng, FLAT, p_empty=0.4)
         if rng.random() < 0.7:
             cfg["items"] = rng.sample(["R", "N1", "N2", "X1", "X2", "N!3", "Ce", "Cu"], rng.choice([1, 2, 3]))
         r = rng.random()
@@ -501,7 +656,7 @@ def gen(tier, rng, boost=1):
         ops.append(op("vec", rng.choice(caps), cfg, obj(entries)))
     # class inside map
     for _ in range((500 if not thorough else 20000) * boost):
-        cfg = rand_cfg(rng, "isov", p_empty=0.4)
+        cfg = rand_cfg(rng, FLAT, p_empty=0.4)
         if rng.random() < 0.7:
             cfg["m"] = rng.sample(["R", "N1", "N2", "X1", "X2", "X!0", "Ce", "Cu"], rng.choice([1, 2, 3]))
         r = rng.random()
@@ -514,6 +669,18 @@ def gen(tier, rng, boost=1):
         else:
             entries = []
         ops.append(op("map", rng.choice(caps), cfg, obj(entries)))
+    # the enum field inside the nested shapes: every kind of value, Required / isLoaded-aware / value-only validators, every cap
+    for val in ENUM_VALUES:
+        for shape in ("nested", "vec", "map"):
+            cfg = {"e": rng.sample(ENUM_VALIDATORS, rng.choice([1, 2, 3, 4]))}
+            if rng.random() < 0.5:
+                cfg["i"] = ["R"]
+            inner = obj(([("e", val)] if val is not None else []) + ([("i", "i1")] if rng.random() < 0.5 else []))
+            doc = {"nested": obj([("n", inner)]), "vec": obj([("items", "a2," + inner + "," + inner)]), "map": obj([("m", obj([("a", inner), ("b", inner)]))])}[shape]
+            for cap in rng.sample(caps, 2):
+                ops.append(op(shape, cap, cfg, doc))
+    # MismatchedTypesPolicy::ThrowError
+    ops += gen_throw(tier, rng, boost, caps)
     # the text validators on arbitrary strings
     ops += gen_phone(tier, rng, boost)
     ops += gen_email(tier, rng, boost)
